@@ -4,7 +4,7 @@ CONSTANTS
   GeoSets = {{1}, {4}, {32}, {1, 4}, {1, 32}, {4, 32}, {1, 4, 32}}
   PolGeoSets = {}
   McMixed = {}
-  McMoreSel = {}
+  McMoreSel = FALSE
   Kinds = {0, 1, 2, 3, 5, 7, 15}
   CostBase = 10000
   Den = 21
